@@ -37,6 +37,7 @@ type Contract struct {
 	XEnsures []*Clause
 	Panics   []*Clause
 	Cases    []*Clause // call sites fork on these conditions (keeps callee-dependent offsets concrete)
+	Forwards []*ForwardCase
 	Modifies []*Clause
 	Lets     []*Clause // Text = name, E = expr
 	MayPanic bool
@@ -86,20 +87,23 @@ type ContractSet struct {
 	Lemmas  map[string]*Lemma
 	ConstGl map[string]bool // pkgpath::name of globals treated as constant after init
 	macros  map[string]*macroDef
+	LogIfaces map[string]bool     // "events.DataEventReceiver": calls are recorded in the ghost event log
+	Closed    map[string][]string // "rules.EventRule" -> names of the package-level singletons implementing it
 	Files   []string
 	Errors  []string
 }
 
 func NewContractSet() *ContractSet {
 	return &ContractSet{Funcs: map[string]*Contract{}, Ifaces: map[string]*Contract{}, Ghosts: map[string]*GhostDecl{},
-		Specs: map[string]*SpecFn{}, Lemmas: map[string]*Lemma{}, ConstGl: map[string]bool{}, macros: map[string]*macroDef{}}
+		Specs: map[string]*SpecFn{}, Lemmas: map[string]*Lemma{}, ConstGl: map[string]bool{}, macros: map[string]*macroDef{},
+		LogIfaces: map[string]bool{}, Closed: map[string][]string{}}
 }
 
 var ctPrefix = regexp.MustCompile(`^\s*//\s?@ ?(.*)$`)
 
 var clauseKeywords = map[string]bool{"requires": true, "ensures": true, "xensures": true, "panics": true, "may_panic": true,
-	"modifies": true, "inline": true, "trusted": true, "loop": true, "let": true, "noreturn": true, "pure": true, "havoc_callees": true, "use": true, "cases": true}
-var topKeywords = map[string]bool{"func": true, "iface": true, "extern": true, "ghost": true, "spec": true, "lemma": true, "const_global": true, "macro": true}
+	"modifies": true, "inline": true, "trusted": true, "loop": true, "let": true, "noreturn": true, "pure": true, "havoc_callees": true, "use": true, "cases": true, "forwards": true}
+var topKeywords = map[string]bool{"func": true, "iface": true, "extern": true, "ghost": true, "spec": true, "lemma": true, "const_global": true, "macro": true, "iface_log": true, "closed_world": true}
 
 // ParseContractFile parses one file. pkgPath is the import path the file belongs to (used to
 // resolve unqualified identifiers); for files outside /repo pass "".
@@ -327,8 +331,24 @@ func (cs *ContractSet) ParseContractText(data, path, pkgPath string) error {
 		case "const_global":
 			cur = nil
 			for _, n := range strings.Fields(strings.ReplaceAll(s.rest, ",", " ")) {
-				cs.ConstGl[pkgPath+"::"+n] = true
+				if strings.Contains(n, "::") {
+					cs.ConstGl[n] = true
+				} else {
+					cs.ConstGl[pkgPath+"::"+n] = true
+				}
 			}
+		case "iface_log":
+			cur = nil
+			for _, n := range strings.Fields(strings.ReplaceAll(s.rest, ",", " ")) {
+				cs.LogIfaces[n] = true
+			}
+		case "closed_world":
+			cur = nil
+			f := strings.Fields(s.rest)
+			if len(f) < 2 {
+				return fail(s.line, "closed_world IFACE impl...")
+			}
+			cs.Closed[f[0]] = append(cs.Closed[f[0]], f[1:]...)
 		default:
 			if cur == nil {
 				return fail(s.line, "clause %q outside a contract", s.kw)
@@ -351,6 +371,31 @@ func (cs *ContractSet) ParseContractText(data, path, pkgPath string) error {
 				case "cases":
 					cur.Cases = append(cur.Cases, c)
 				}
+			case "forwards":
+				// forwards [COND :] Method(args): on normal return exactly this call was appended to the event log
+				rest := s.rest
+				var cond *Clause
+				if k := topLevelColon(rest); k >= 0 {
+					c, err := mkClause("forwards-cond", strings.TrimSpace(rest[:k]), s.line)
+					if err != nil {
+						return err
+					}
+					cond = c
+					rest = strings.TrimSpace(rest[k+1:])
+				}
+				call, err := mkClause("forwards", rest, s.line)
+				if err != nil {
+					return err
+				}
+				ce, ok := call.E.(*CallE)
+				if !ok {
+					return fail(s.line, "forwards needs Method(args)")
+				}
+				id, ok := ce.Fun.(*Ident)
+				if !ok {
+					return fail(s.line, "forwards needs Method(args)")
+				}
+				cur.Forwards = append(cur.Forwards, &ForwardCase{Cond: cond, Method: id.Name, Args: ce.Args, Clause: call})
 			case "modifies":
 				c, err := mkList(s.kw, s.rest, s.line)
 				if err != nil {
@@ -432,6 +477,33 @@ func (cs *ContractSet) ParseContractText(data, path, pkgPath string) error {
 		}
 	}
 	return nil
+}
+
+// ForwardCase: under Cond (nil = always) the function forwards exactly one call Method(Args) to
+// the logged next receiver.
+type ForwardCase struct {
+	Cond   *Clause
+	Method string
+	Args   []Expr
+	Clause *Clause
+}
+
+// topLevelColon finds " : " outside parentheses and brackets.
+func topLevelColon(s string) int {
+	depth := 0
+	for i := 0; i < len(s); i++ {
+		switch s[i] {
+		case '(', '[':
+			depth++
+		case ')', ']':
+			depth--
+		case ':':
+			if depth == 0 && i > 0 && s[i-1] == ' ' && i+1 < len(s) && s[i+1] == ' ' {
+				return i
+			}
+		}
+	}
+	return -1
 }
 
 type macroDef struct {
